@@ -2,6 +2,7 @@ import EinoV.Oracle.GraphCase
 import EinoV.Oracle.C02Workflow
 import EinoV.Spec.DagWF
 import EinoV.Spec.DagStatus
+import EinoV.Spec.GraphDefWF
 
 namespace EinoV.Oracle.C02
 open Lean EinoV
@@ -25,6 +26,6 @@ def handle (c : Json) : JE Json := do
     -- (Props/C02.lean `dag_at_most_once`; `dag_wf_check_sound`)?
     let gd ← GraphCase.parseGraph g
     let r := Engine.compile GraphCase.defaultStepSlack gd
-    pure (((out.setObjVal! "wf" (Json.bool (Engine.DagRun.dagWFb r))).setObjVal! "wf2" (Json.bool (Engine.DagRun.dagWF2b r))).setObjVal! "wf3" (Json.bool (Engine.DagRun.dagWF3b r)))
+    pure ((((out.setObjVal! "wf" (Json.bool (Engine.DagRun.dagWFb r))).setObjVal! "wf2" (Json.bool (Engine.DagRun.dagWF2b r))).setObjVal! "wf3" (Json.bool (Engine.DagRun.dagWF3b r))).setObjVal! "gwf" (Json.bool (Engine.DagRun.graphDefWFb gd)))
 
 end EinoV.Oracle.C02
